@@ -1,9 +1,9 @@
 (* The reference decoder reads the reference encoding back: ref_decode (ref_encode v) = norm v.
    With T_enc and T_dec this is C03 (and the decoding half of C01, C08, C11) for Unmarshal(Marshal(m)). *)
-From Coq Require Import List ZArith Lia Bool Arith.
+From Coq Require Import List ZArith Lia Bool Arith Sorting.Permutation.
 From Pico Require Import Base.Res Base.ListX Base.Mach Wire.Wire Schema.Types Schema.Scalar Schema.Gen Schema.Conv Schema.Interp Schema.Norm Ref.Ref
   Wire.VarintProofs Wire.WireProofs Wire.FixedProofs Schema.ScalarProofs Dec.Dec Dec.SafetyProofs Dec.TokenBridge Dec.TokenApp Dec.StreamLoop Dec.ReaderBridge
-  Schema.EncSpec Dec.ReaderProofs Dec.LoopInst Schema.TDec Schema.Concat.
+  Schema.EncSpec Dec.ReaderProofs Dec.LoopInst Schema.TEnc Schema.TDec Schema.Concat Schema.Fuel.
 Import ListNotations.
 Open Scope Z_scope.
 
@@ -400,3 +400,308 @@ Proof.
         fold payload in Hu. rewrite Hu, Hz. reflexivity.
 Qed.
 End ScalarRepRT.
+
+(* ---------------------------------------------------------------- side conditions on the value (what Go's types and maps guarantee) *)
+Definition is_set (v : val) : bool := match v with VOpt (Some _) | VMsg (Some _) => true | _ => false end.
+Definition oneof_ok (m : mdesc) (fs : list val) : bool :=
+  forallb (fun p : nat * fdesc => negb (is_set (nth (fst p) fs (VInt 0))) ||
+                    forallb (fun sib => negb (is_set (nth sib fs (VInt 0)))) (oneof_siblings m (snd p) (fst p)))
+          (number_from 0 (mfields m)).
+Definition bytes_eqb (a b : bytes) : bool := if list_eq_dec Z.eq_dec a b then true else false.
+Lemma bytes_eqb_eq a b : bytes_eqb a b = true -> a = b.
+Proof. unfold bytes_eqb. destruct (list_eq_dec Z.eq_dec a b); [auto|discriminate]. Qed.
+
+(* XXX_unrecognized of a capturing message holds what UnrecognizedFields stores: re-tagged unknown fields *)
+Definition un_ok (m : mdesc) (un : bytes) : bool :=
+  if m_capture m then
+    forallb byte_ok un &&
+    match tokens un with
+    | Some ts => forallb (fun tok => match find_field m (t_num tok) with None => true | Some _ => false end) ts &&
+                 bytes_eqb un (flat_map (fun tok => spec_tag (t_num tok) (t_wt tok) ++ t_raw tok) ts)
+    | None => false
+    end
+  else match un with [] => true | _ => false end.
+
+Lemma byte_ok_bytes_ok l : forallb byte_ok l = true -> bytes_ok l.
+Proof.
+  intros H. rewrite forallb_forall in H. apply Forall_forall. intros y Hy. specialize (H y Hy). unfold byte_ok in H.
+  apply andb_true_iff in H. destruct H as [H1 H2]. apply Z.leb_le in H1. apply Z.ltb_lt in H2. lia.
+Qed.
+
+Lemma un_decode s G idx m un t : nth_error s idx = Some m -> un_ok m un = true ->
+  bytes_ok (if m_capture m then un else []) /\
+  ref_decode (S G) s idx (if m_capture m then un else []) (t, []) = Some (t, un).
+Proof.
+  intros Hm H. unfold un_ok in H. destruct (m_capture m) eqn:Ec.
+  - apply andb_true_iff in H. destruct H as [Hb H]. split; [apply byte_ok_bytes_ok, Hb|].
+    rewrite ref_decode_unfold, Hm. destruct (tokens un) as [ts|]; [|discriminate H].
+    apply andb_true_iff in H. destruct H as [Hall He]. apply bytes_eqb_eq in He. rewrite He. clear He.
+    assert (Gf : forall ts0 acc, forallb (fun tok => match find_field m (t_num tok) with None => true | Some _ => false end) ts0 = true ->
+              fold_opt (apply_token s (ref_decode G s) m) ts0 (Some (t, acc)) =
+              Some (t, acc ++ flat_map (fun tok => spec_tag (t_num tok) (t_wt tok) ++ t_raw tok) ts0)).
+    { induction ts0 as [|tok ts0 IH]; intros acc Ha; [cbn; rewrite app_nil_r; reflexivity|].
+      cbn [forallb] in Ha. apply andb_true_iff in Ha. destruct Ha as [H1 H2]. rewrite fold_opt_cons. unfold apply_token at 2.
+      destruct (find_field m (t_num tok)); [discriminate H1|]. rewrite Ec. cbn [fst snd]. rewrite IH by exact H2.
+      cbn [flat_map]. rewrite <- !app_assoc. reflexivity. }
+    exact (Gf ts [] Hall).
+  - destruct un; [|discriminate H]. split; [constructor|]. apply (ref_decode_nil s idx m Hm).
+Qed.
+
+Lemma list_ext_nth {A} (a b : list A) d : length a = length b -> (forall i, (i < length a)%nat -> nth i a d = nth i b d) -> a = b.
+Proof.
+  revert b. induction a as [|x a IH]; intros [|y b] Hl H; try discriminate Hl; [reflexivity|].
+  f_equal; [apply (H 0%nat); cbn; lia|]. apply IH; [cbn in Hl; lia|]. intros i Hi. apply (H (S i)). cbn. lia.
+Qed.
+
+Lemma number_from_nth {A} (l : list A) : forall n i x, nth_error l i = Some x -> In ((n + i)%nat, x) (number_from n l).
+Proof.
+  induction l as [|y l IH]; intros n i x H; [destruct i; discriminate H|]. destruct i as [|i]; cbn in *.
+  - injection H as <-. left. f_equal. lia.
+  - right. replace (n + S i)%nat with (S n + i)%nat by lia. apply IH. exact H.
+Qed.
+Lemma number_from_in_nth {A} (l : list A) : forall n p, In p (number_from n l) -> nth_error l (fst p - n) = Some (snd p) /\ (n <= fst p)%nat.
+Proof.
+  induction l as [|y l IH]; intros n p H; cbn in H; [contradiction|]. destruct H as [<-|H].
+  - cbn. rewrite Nat.sub_diag. split; [reflexivity|lia].
+  - destruct (IH _ _ H) as [E Hle]. split; [|lia]. replace (fst p - n)%nat with (S (fst p - S n)) by lia. exact E.
+Qed.
+
+(* ---------------------------------------------------------------- typing of values for the round trip *)
+Definition msg_slot_ok (s : schema) (sub : nat -> list val -> bytes -> bool) (enc : nat -> list val -> bytes -> bytes)
+           (f : fdesc) (j : nat) (v : val) : bool := false.      (* extended below, class by class *)
+Definition map_slot_ok (kk vk : kind) (v : val) : bool := false.
+Definition cast_slot_ok (s : schema) (f : fdesc) (v : val) : bool := false.
+
+Definition slot_rt_ok (s : schema) (sub : nat -> list val -> bytes -> bool) (enc : nat -> list val -> bytes -> bytes)
+           (f : fdesc) (v : val) : bool :=
+  match f_custom f, fty f with
+  | CNone, TScalar k => scalar_slot_ok s f k v
+  | CNone, TEnum => negb (i_pointer (field_info s f)) && scalar_slot_ok s f KInt32 v
+  | CNone, TMsg j => msg_slot_ok s sub enc f j v
+  | CNone, TMap kk vk => map_slot_ok kk vk v
+  | (CTimestamp | CDuration), _ => cast_slot_ok s f v
+  | _, _ => false
+  end.
+
+Fixpoint rt_ok (g : nat) (s : schema) (idx : nat) (fs : list val) (un : bytes) : bool :=
+  match g with
+  | O => false
+  | S g' =>
+      match nth_error s idx with
+      | None => false
+      | Some m =>
+          Nat.eqb (length fs) (length (mfields m)) &&
+          forallb (fun p : nat * fdesc => slot_rt_ok s (rt_ok g' s) (ref_encode g' s) (snd p) (nth (fst p) fs (VInt 0))) (number_from 0 (mfields m)) &&
+          oneof_ok m fs && un_ok m un
+      end
+  end.
+
+Lemma field_rt_ext s G idx m enc1 enc2 nv1 nv2 z1 z2 fs p :
+  enc1 (snd p) (nth (fst p) fs (VInt 0)) = enc2 (snd p) (nth (fst p) fs (VInt 0)) ->
+  nv1 (snd p) (nth (fst p) fs (VInt 0)) = nv2 (snd p) (nth (fst p) fs (VInt 0)) -> z1 (snd p) = z2 (snd p) ->
+  field_rt s G idx m enc1 nv1 z1 fs p -> field_rt s G idx m enc2 nv2 z2 fs p.
+Proof. unfold field_rt. intros E1 E2 E3 H t u Hz Hs. rewrite <- E1, <- E2. rewrite <- E1 in Hs. rewrite <- E3 in Hz. apply H; assumption. Qed.
+
+Lemma zero_slot_scalar n s f k : f_custom f = CNone -> (fty f = TScalar k \/ (fty f = TEnum /\ k = KInt32 /\ i_pointer (field_info s f) = false)) ->
+  zero_slot n s f = if i_repeated (field_info s f) then VList [] else if i_oneof (field_info s f) || i_pointer (field_info s f) then VOpt None else zero_scalar k.
+Proof.
+  intros Hc Ht. destruct n; cbn [zero_slot].
+  all: destruct Ht as [Ht|[Ht [-> Hp]]];
+    [rewrite (info_scalar s f k Hc Ht)|rewrite (info_enum s f Hc Ht), Hp];
+    destruct (i_repeated (field_info s f)); try reflexivity; destruct (i_oneof (field_info s f)); try reflexivity;
+    try (destruct (i_pointer (field_info s f)); reflexivity).
+Qed.
+
+Lemma norm_slot_scalar g s f v : f_custom f = CNone -> (exists k, fty f = TScalar k) \/ fty f = TEnum -> norm_slot g s f v = v.
+Proof. intros Hc Ht. unfold norm_slot. rewrite Hc. destruct Ht as [[k Ht]|Ht]; rewrite Ht; reflexivity. Qed.
+
+Lemma nth_zero_fields s m slot f : In (slot, f) (number_from 0 (mfields m)) -> nth slot (zero_fields s m) (VInt 0) = zero_slot (length s) s f.
+Proof.
+  intros Hin. destruct (number_from_in_nth (mfields m) 0 (slot, f) Hin) as [E _]. cbn [fst snd] in E. rewrite Nat.sub_0_r in E.
+  unfold zero_fields. apply nth_error_nth. rewrite nth_error_map, E. reflexivity.
+Qed.
+
+(* ---------------------------------------------------------------- the round trip, by induction on the nesting of the value *)
+Section Top.
+Variable s : schema.
+Hypothesis Happ : tdec_applies s = true.
+
+Lemma wf_of_app : wf_schema_dec s /\ supported_schema s.
+Proof. apply tdec_applies_spec. exact Happ. Qed.
+
+Definition rt_stmt (g : nat) : Prop := forall idx fs un m G, nth_error s idx = Some m -> rt_ok g s idx fs un = true -> (g <= G)%nat ->
+  bytes_ok (ref_encode g s idx fs un) /\
+  ref_decode (S G) s idx (ref_encode g s idx fs un) (zero_fields s m, []) = Some (norm_fields g s idx fs, un).
+
+Lemma field_dispatch g G idx m fs : nth_error s idx = Some m -> (g <= G)%nat -> rt_stmt g ->
+  forall p, In p (number_from 0 (mfields m)) ->
+  slot_rt_ok s (rt_ok g s) (ref_encode g s) (snd p) (nth (fst p) fs (VInt 0)) = true ->
+  field_rt s G idx m (ref_slot (ref_encode g s)) (norm_slot g s) (zero_slot (length s) s) fs p.
+Proof.
+  intros Hm HG IH [slot f] Hin Hok. cbn [fst snd] in *.
+  destruct wf_of_app as [Hwf Hsup]. pose proof (nth_error_In _ _ Hm) as Hms.
+  destruct (Hwf m Hms) as [Hnd Hf]. pose proof (number_from_In _ _ _ Hin) as Hfin. destruct (Hf f Hfin) as [Hv Hnop].
+  pose proof (Hsup m Hms f Hfin) as Hs.
+  unfold slot_rt_ok in Hok.
+  destruct (f_custom f) eqn:Hc; try discriminate Hok.
+  - destruct (fty f) as [k| |j|kk vk|] eqn:Ht; try discriminate Hok.
+    + (* scalar *)
+      destruct (i_repeated (field_info s f)) eqn:Er.
+      * assert (Hno : foneof f = None).
+        { destruct Hs as [[_ [[_ [Hl|Hno]]|[[j [E _]]|[kk [vk [E _]]]]]]|[[E|E] _]]; try congruence.
+          exfalso. unfold field_info in Er. destruct (flabel f); try congruence; rewrite Ht in Er; destruct (is_bytes_kind k); discriminate Er. }
+        apply (field_rt_ext s G idx m (ref_slot (ref_encode g s)) _ (fun _ v => v) _ (fun _ => VList []) _ fs (slot, f)); cbn [fst snd];
+          [reflexivity|symmetry; apply norm_slot_scalar; [exact Hc|left; exists k; exact Ht]|
+           rewrite (zero_slot_scalar _ s f k Hc (or_introl Ht)), Er; reflexivity|].
+        apply (scalar_rep_rt s G idx m Hm Hnd (ref_encode g s) k slot f fs Hin Hc (or_introl Ht) Er Hno Hv Hok).
+      * apply (field_rt_ext s G idx m (ref_slot (ref_encode g s)) _ (fun _ v => v) _
+                 (fun f0 => if i_oneof (field_info s f0) || i_pointer (field_info s f0) then VOpt None else zero_scalar k) _ fs (slot, f)); cbn [fst snd];
+          [reflexivity|symmetry; apply norm_slot_scalar; [exact Hc|left; exists k; exact Ht]|
+           rewrite (zero_slot_scalar _ s f k Hc (or_introl Ht)), Er; reflexivity|].
+        apply (scalar_single_rt s G idx m Hm Hnd (ref_encode g s) k slot f fs Hin Hc (or_introl Ht) Er Hv Hok).
+    + (* enum *)
+      apply andb_true_iff in Hok. destruct Hok as [Hp Hok]. apply negb_true_iff in Hp.
+      destruct (i_repeated (field_info s f)) eqn:Er.
+      * assert (Hno : foneof f = None).
+        { destruct Hs as [[_ [[_ [Hl|Hno]]|[[j [E _]]|[kk [vk [E _]]]]]]|[[E|E] _]]; try congruence.
+          exfalso. unfold field_info in Er. destruct (flabel f); try congruence; rewrite Ht in Er; discriminate Er. }
+        apply (field_rt_ext s G idx m (ref_slot (ref_encode g s)) _ (fun _ v => v) _ (fun _ => VList []) _ fs (slot, f)); cbn [fst snd];
+          [reflexivity|symmetry; apply norm_slot_scalar; [exact Hc|right; exact Ht]|
+           rewrite (zero_slot_scalar _ s f KInt32 Hc (or_intror (conj Ht (conj eq_refl Hp)))), Er; reflexivity|].
+        apply (scalar_rep_rt s G idx m Hm Hnd (ref_encode g s) KInt32 slot f fs Hin Hc (or_intror (conj Ht eq_refl)) Er Hno Hv Hok).
+      * apply (field_rt_ext s G idx m (ref_slot (ref_encode g s)) _ (fun _ v => v) _
+                 (fun f0 => if i_oneof (field_info s f0) || i_pointer (field_info s f0) then VOpt None else zero_scalar KInt32) _ fs (slot, f)); cbn [fst snd];
+          [reflexivity|symmetry; apply norm_slot_scalar; [exact Hc|right; exact Ht]|
+           rewrite (zero_slot_scalar _ s f KInt32 Hc (or_intror (conj Ht (conj eq_refl Hp)))), Er; reflexivity|].
+        apply (scalar_single_rt s G idx m Hm Hnd (ref_encode g s) KInt32 slot f fs Hin Hc (or_intror (conj Ht eq_refl)) Er Hv Hok).
+Qed.
+
+(* oneof members: typed values are a set member or the unset form, and unset members write nothing *)
+Lemma oneof_member_forms g sub f v : supported s f -> foneof f <> None ->
+  slot_rt_ok s sub (ref_encode g s) f v = true ->
+  is_set v = false -> ref_slot (ref_encode g s) f v = [] /\ norm_slot g s f v = v /\ unset v.
+Proof.
+  intros Hs Ho Hok Hns. unfold slot_rt_ok in Hok.
+  destruct (f_custom f) eqn:Hc; try discriminate Hok.
+  destruct (fty f) as [k| |j|kk vk|] eqn:Ht; try discriminate Hok.
+  - assert (Hr : i_repeated (field_info s f) = false).
+    { destruct Hs as [[_ [[_ [Hl|Hno]]|[[j [E _]]|[kk [vk [E _]]]]]]|[[E|E] _]]; try congruence. apply info_not_repeated, Hl. }
+    unfold scalar_slot_ok in Hok. rewrite Hr, info_oneof in Hok. destruct (foneof f); [|congruence]. cbn [orb] in Hok.
+    destruct v as [| |[x|]| | | | | |]; try discriminate Hok; [discriminate Hns|].
+    unfold ref_slot, norm_slot. rewrite Hc, Ht. cbn. repeat split. left; reflexivity.
+  - apply andb_true_iff in Hok. destruct Hok as [_ Hok].
+    assert (Hr : i_repeated (field_info s f) = false).
+    { destruct Hs as [[_ [[_ [Hl|Hno]]|[[j [E _]]|[kk [vk [E _]]]]]]|[[E|E] _]]; try congruence. apply info_not_repeated, Hl. }
+    unfold scalar_slot_ok in Hok. rewrite Hr, info_oneof in Hok. destruct (foneof f); [|congruence]. cbn [orb] in Hok.
+    destruct v as [| |[x|]| | | | | |]; try discriminate Hok; [discriminate Hns|].
+    unfold ref_slot, norm_slot. rewrite Hc, Ht. cbn. repeat split. left; reflexivity.
+Qed.
+
+Lemma oneof_member_zero n f : supported s f -> foneof f <> None -> unset (zero_slot n s f).
+Proof.
+  intros Hs Ho. pose proof (info_oneof s f) as Hone. destruct (foneof f) as [o|] eqn:Eo; [|congruence].
+  destruct Hs as [[Hc [[[k Hk] [Hl|Hno]]|[[j [Ht [[Hl Hp]|[Hl Hno]]]]|[kk [vk [Ht Hno]]]]]]|[Hc Hor]]; try congruence.
+  - pose proof (info_not_repeated s f Hl) as Hr.
+    assert (Hpt : i_pointer (field_info s f) = false).
+    { apply info_oneof_nonmsg_ptr; [rewrite Eo; discriminate|]. intros idx. destruct Hk as [Hk|[Hk _]]; rewrite Hk; discriminate. }
+    rewrite (zero_slot_scalar n s f k Hc); [rewrite Hr, Hone; left; reflexivity|].
+    destruct Hk as [Hk|[Hk Ek]]; [left; exact Hk|right; auto].
+  - pose proof (info_not_repeated s f Hl) as Hr. specialize (Hp ltac:(congruence)).
+    destruct n; cbn [zero_slot]; rewrite (info_msg s f j Hc Ht), Hr, Hp; right; reflexivity.
+  - specialize (Hor ltac:(congruence)).
+    destruct n; cbn [zero_slot]; rewrite (info_cast s f Hc), Hor, Hone;
+      destruct Hc as [-> | ->]; left; reflexivity.
+Qed.
+
+Lemma sorted_nodup_fst (m : mdesc) : NoDup (map fst (sort_by_num (number_from 0 (mfields m)))).
+Proof.
+  apply (Permutation_NoDup (l := map (@fst nat fdesc) (number_from 0 (mfields m)))).
+  - apply Permutation_map, Permutation_sym, sort_by_num_perm.
+  - apply number_from_NoDup_fst.
+Qed.
+
+Theorem ref_round_trip_all : forall g, rt_stmt g.
+Proof.
+  induction g as [|g IH]; intros idx fs un m G Hm Hok HG; [discriminate Hok|].
+  destruct wf_of_app as [Hwf Hsup]. pose proof (nth_error_In _ _ Hm) as Hms.
+  cbn [rt_ok] in Hok. rewrite Hm in Hok. apply andb_true_iff in Hok. destruct Hok as [Hok Hun].
+  apply andb_true_iff in Hok. destruct Hok as [Hok Hone]. apply andb_true_iff in Hok. destruct Hok as [Hlen Hslots].
+  apply Nat.eqb_eq in Hlen. rewrite forallb_forall in Hslots.
+  cbn [ref_encode]. rewrite Hm.
+  set (fields := number_from 0 (mfields m)) in *. set (sorted := sort_by_num fields).
+  assert (Hfield : forall p, In p fields -> field_rt s G idx m (ref_slot (ref_encode g s)) (norm_slot g s) (zero_slot (length s) s) fs p).
+  { intros p Hp. apply (field_dispatch g G idx m fs Hm ltac:(lia) IH p Hp). apply Hslots, Hp. }
+  assert (Hz1 : forall p q, In p fields -> In q fields -> In (fst q) (oneof_siblings m (snd p) (fst p)) -> unset (zero_slot (length s) s (snd q))).
+  { intros p q Hp Hq Hs. apply oneof_member_zero; [apply (Hsup m Hms), (number_from_In _ _ _ Hq)|].
+    unfold oneof_siblings in Hs. destruct (foneof (snd p)) as [o|] eqn:Eo; [|destruct Hs]. apply in_map_iff in Hs. destruct Hs as [q' [E Hq']].
+    apply filter_In in Hq'. destruct Hq' as [Hq'in Hc]. apply andb_true_iff in Hc. destruct Hc as [_ Hc].
+    assert (q' = q).
+    { pose proof (number_from_NoDup_fst (mfields m) 0) as Hndf. fold fields in Hndf, Hq'in.
+      destruct (In_nth_error _ _ Hq) as [i Hi]. destruct (In_nth_error _ _ Hq'in) as [j Hj].
+      assert (i = j) by (apply (proj1 (NoDup_nth_error _) Hndf); [rewrite map_length; apply nth_error_Some; congruence|rewrite !nth_error_map, Hi, Hj; cbn; congruence]).
+      subst j. congruence. }
+    subst q'. destruct (foneof (snd q)); [discriminate|discriminate Hc]. }
+  assert (Hsibq : forall p q, In p fields -> In q fields -> In (fst q) (oneof_siblings m (snd p) (fst p)) -> foneof (snd p) <> None /\ foneof (snd q) <> None).
+  { intros p q Hp Hq Hs. unfold oneof_siblings in Hs. destruct (foneof (snd p)) as [o|] eqn:Eo; [|destruct Hs]. split; [discriminate|].
+    apply in_map_iff in Hs. destruct Hs as [q' [E Hq']]. apply filter_In in Hq'. destruct Hq' as [Hq'in Hc]. apply andb_true_iff in Hc. destruct Hc as [_ Hc].
+    assert (q' = q).
+    { pose proof (number_from_NoDup_fst (mfields m) 0) as Hndf. fold fields in Hndf, Hq'in.
+      destruct (In_nth_error _ _ Hq) as [i Hi]. destruct (In_nth_error _ _ Hq'in) as [j Hj].
+      assert (i = j) by (apply (proj1 (NoDup_nth_error _) Hndf); [rewrite map_length; apply nth_error_Some; congruence|rewrite !nth_error_map, Hi, Hj; cbn; congruence]).
+      subst j. congruence. }
+    subst q'. destruct (foneof (snd q)); [discriminate|discriminate Hc]. }
+  assert (Hz2 : forall p q, In p fields -> In q fields -> In (fst q) (oneof_siblings m (snd p) (fst p)) ->
+            ref_slot (ref_encode g s) (snd p) (nth (fst p) fs (VInt 0)) <> [] -> unset (norm_slot g s (snd q) (nth (fst q) fs (VInt 0)))).
+  { intros p q Hp Hq Hs Hne. destruct (Hsibq p q Hp Hq Hs) as [Hop Hoq].
+    assert (Hsetp : is_set (nth (fst p) fs (VInt 0)) = true).
+    { destruct (is_set (nth (fst p) fs (VInt 0))) eqn:E; [reflexivity|]. exfalso.
+      destruct (oneof_member_forms g (rt_ok g s) (snd p) _ (Hsup m Hms _ (number_from_In _ _ _ Hp)) Hop (Hslots p Hp) E) as [E0 _]. congruence. }
+    unfold oneof_ok in Hone. rewrite forallb_forall in Hone. specialize (Hone p Hp). fold fields in Hone. rewrite Hsetp in Hone. cbn [negb orb] in Hone.
+    rewrite forallb_forall in Hone. specialize (Hone (fst q) Hs). apply negb_true_iff in Hone.
+    destruct (oneof_member_forms g (rt_ok g s) (snd q) _ (Hsup m Hms _ (number_from_In _ _ _ Hq)) Hoq (Hslots q Hq) Hone) as [_ [-> Hu]]. exact Hu. }
+  destruct (Hwf m Hms) as [Hnd _].
+  destruct (fields_rt s G idx m Hm (ref_slot (ref_encode g s)) (norm_slot g s) (zero_slot (length s) s) fs Hfield Hz1 Hz2 sorted
+              (sorted_nodup_fst m) ltac:(intros x Hx; apply (sort_by_num_In _ _ Hx)) (zero_fields s m) []) as [Hb [t' [Hd [Hl' Hall]]]].
+  - unfold zero_fields. apply map_length.
+  - intros p Hp. destruct p as [slot f]. apply nth_zero_fields. apply (sort_by_num_In _ _ Hp).
+  - intros q Hq Hnq. exfalso. apply Hnq. apply (Permutation_in _ (Permutation_sym (sort_by_num_perm _)) Hq).
+  - assert (Et : t' = norm_fields (S g) s idx fs).
+    { rewrite (norm_fields_unfold g s idx fs m Hm). apply (list_ext_nth _ _ (VInt 0)).
+      - rewrite Hl', map_length, combine_length. lia.
+      - intros i Hi. rewrite Hl' in Hi. destruct (nth_error (mfields m) i) as [f|] eqn:Ef; [|apply nth_error_None in Ef; lia].
+        pose proof (number_from_nth (mfields m) 0 i f Ef) as Hin. cbn [Nat.add] in Hin.
+        pose proof (Hall (i, f) Hin) as Ha. cbn [fst snd] in Ha. rewrite Ha. symmetry.
+        apply nth_error_nth. rewrite nth_error_map.
+        assert (Ec : nth_error (combine fs (mfields m)) i = Some (nth i fs (VInt 0), f)).
+        { clear -Hlen Ef. revert i fs Hlen Ef. induction (mfields m) as [|f0 l IHl]; intros i fs Hlen Ef; [destruct i; discriminate Ef|].
+          destruct fs as [|v fs]; [discriminate Hlen|]. destruct i as [|i]; cbn in *; [injection Ef as <-; reflexivity|]. apply IHl; [lia|exact Ef]. }
+        rewrite Ec. reflexivity. }
+    subst t'. destruct (un_decode s G idx m un (norm_fields (S g) s idx fs) Hm Hun) as [Hbu Hdu].
+    split; [apply bytes_ok_app; assumption|].
+    rewrite (ref_decode_app (S G) s idx _ _ _ _ Hb Hd). exact Hdu.
+Qed.
+End Top.
+
+(* ---------------------------------------------------------------- C03 for generated code *)
+Theorem ref_round_trip s g idx fs un m : tdec_applies s = true -> nth_error s idx = Some m -> rt_ok g s idx fs un = true ->
+  bytes_ok (ref_encode g s idx fs un) /\
+  forall G, (length (ref_encode g s idx fs un) < G)%nat ->
+    ref_decode G s idx (ref_encode g s idx fs un) (zero_fields s m, []) = Some (norm_fields g s idx fs, un).
+Proof.
+  intros Happ Hm Hok. destruct (ref_round_trip_all s Happ g idx fs un m g Hm Hok (le_n g)) as [Hb Hd]. split; [exact Hb|].
+  intros G HG. apply (ref_decode_enough s _ (S g) G idx _ _ Hb Hd HG).
+Qed.
+
+(* Unmarshal(Marshal(m)) into a fresh message reproduces m (up to the by-design normal form of Norm.v) *)
+Theorem marshal_unmarshal s progs fuel idx fs un m :
+  gen_all s = GOk progs -> wf_schema_enc s = true -> tdec_applies s = true -> nth_error s idx = Some m ->
+  msg_ok fuel progs idx (Some (fs, un)) = true -> rt_ok fuel s idx fs un = true ->
+  exists data, pico_marshal fuel progs idx (fs, un) = Ok data /\
+               pico_unmarshal progs idx data (zero_fields s m, []) = (None, (norm_fields fuel s idx fs, un)).
+Proof.
+  intros Hgen Hwe Happ Hm Hmok Hrt. exists (ref_encode fuel s idx fs un). split; [apply T_enc; assumption|].
+  destruct (ref_round_trip s fuel idx fs un m Happ Hm Hrt) as [Hb Hd].
+  pose proof (T_dec_b s progs idx (ref_encode fuel s idx fs un) (zero_fields s m, []) Hgen Happ Hb) as Ht. cbv zeta in Ht.
+  rewrite (Hd (S (S (S (length (ref_encode fuel s idx fs un))))) ltac:(lia)) in Ht. destruct Ht as [E1 E2].
+  destruct (pico_unmarshal progs idx (ref_encode fuel s idx fs un) (zero_fields s m, [])) as [e r]. cbn [fst snd] in *. subst. reflexivity.
+Qed.
